@@ -6,6 +6,7 @@ import GeosModel.Proofs.Kernel.DDGrid
 import GeosModel.Proofs.Kernel.CCWTriangle
 import GeosModel.Proofs.Kernel.PolyLocateCorrect
 import GeosModel.Proofs.Kernel.IndexedLocateCorrect
+import GeosModel.Proofs.Kernel.PointLocatorCorrect
 /-!
 # C07 — orientation, point-in-ring and segment intersection are exact on grid inputs
 
@@ -242,6 +243,72 @@ example :
     locateInRing ⟨13, 13⟩ shell = .interior ∧ locateInRing ⟨13, 13⟩ tri = .exterior ∧ locateInRing ⟨13, 13⟩ sq = .interior ∧
     ([tri, sq].filter (fun h => locateInRing ⟨13, 13⟩ h == .interior)).length ≤ 1 ∧
     PolyLocate.locateIndexed ⟨13, 13⟩ [shell, tri, sq] = .exterior := by decide
+
+/-! ## 2c. the general-purpose `algorithm::PointLocator` -/
+
+/-- **pointLocator_ring_correct**: the ported `PointLocator::locateInPolygonRing` (envelope reject, boundary scan
+`PointLocation::isOnLine`, then `PointLocation::isInRing`) equals the specification on every closed ring, for every point -/
+theorem pointLocator_ring_correct (p : Pt) (ring : List Pt) (hc : Closed ring) :
+    PointLocator.locateInPolygonRing p ring = locateInRing p ring :=
+  PointLocator.locateInPolygonRing_eq p ring hc
+
+/-- **pointLocator_polygon_correct**: the ported `PointLocator::locate(p, Polygon)` (shell first, then the holes in order
+with early exits) equals `Kernel.locateInPolygon` under the hypotheses of `polygon_locate_correct` -/
+theorem pointLocator_polygon_correct (p : Pt) (rings : List (List Pt)) (hc : ∀ r ∈ rings, Closed r)
+    (hsep : PolyLocate.HolesSeparateAt p rings.tail) :
+    PointLocator.locatePolygon p rings = locateInPolygon p rings :=
+  PointLocator.locatePolygon_eq p rings hc hsep
+
+/-- the two polygon locators agree on all closed rings, with no hypothesis on the holes -/
+theorem pointLocator_agrees_with_simple (p : Pt) (rings : List (List Pt)) (hc : ∀ r ∈ rings, Closed r) :
+    PointLocator.locatePolygon p rings = PolyLocate.locatePointInPolygon p rings :=
+  PointLocator.locatePolygon_eq_simple p rings hc
+
+/-- **the order of the two ring tests is essential**: `isInRing` is true on the ring, so with the ray-crossing test
+placed before the boundary scan the ring locator never answers BOUNDARY — it says INTERIOR wherever the specification
+says INTERIOR or BOUNDARY (a point on a hole ring would then be EXTERIOR of the polygon) -/
+theorem pointLocator_order_essential (p : Pt) (ring : List Pt) (hc : Closed ring) :
+    PointLocator.locateInPolygonRingSwapped p ring ≠ .boundary ∧
+    PointLocator.locateInPolygonRingSwapped p ring =
+      (if locateInRing p ring = .exterior then .exterior else .interior) :=
+  ⟨PointLocator.swapped_never_boundary p ring hc, PointLocator.swapped_eq p ring hc⟩
+
+/-- `PointLocation::isOnLine` is the exact "some segment of the chain contains the point", for every chain -/
+theorem isOnLine_exact (p : Pt) (l : List Pt) :
+    isOnLine p l = (edges l).any (fun e => onSegment e.1 e.2 p) :=
+  PointLocator.isOnLine_eq_any p l
+
+/-- **pointLocator_line**: `PointLocator::locate(p, LineString)` answers BOUNDARY exactly at the first / last vertex of a
+chain that is not closed, otherwise INTERIOR exactly on the segments of the chain; the envelope reject changes nothing -/
+theorem pointLocator_line (p : Pt) (pts : List Pt) :
+    PointLocator.locateLine p pts =
+      if PointLocator.lineClosed pts = false ∧ (pts.head? = some p ∨ pts.getLast? = some p) then .boundary
+      else if (edges pts).any (fun e => onSegment e.1 e.2 p) then .interior else .exterior :=
+  PointLocator.locateLine_eq p pts
+
+/-- **pointLocator_collection_mod2**: on MULTI* / GEOMETRYCOLLECTION (nested, with empty elements) the walk
+`computeLocation` / `updateLocationInfo` and the final test are the Mod-2 rule over the locations of the non-empty
+atomic elements -/
+theorem pointLocator_collection_mod2 (p : Pt) (es : List PointLocator.Geo) :
+    PointLocator.locate p (.coll es) =
+      let ls := PointLocator.leafLocsList p es
+      if ls.count .boundary % 2 = 1 then .boundary
+      else if 0 < ls.count .boundary ∨ .interior ∈ ls then .interior else .exterior :=
+  PointLocator.locate_coll p es
+
+-- a square with a square hole: on the hole ring the polygon answer is BOUNDARY, the swapped ring test would make it EXTERIOR
+example :
+    let shell : List Pt := [⟨0, 0⟩, ⟨20, 0⟩, ⟨20, 20⟩, ⟨0, 20⟩, ⟨0, 0⟩]
+    let hole : List Pt := [⟨6, 6⟩, ⟨14, 6⟩, ⟨14, 14⟩, ⟨6, 14⟩, ⟨6, 6⟩]
+    PointLocator.locatePolygon ⟨10, 6⟩ [shell, hole] = .boundary ∧ PointLocator.locatePolygon ⟨14, 14⟩ [shell, hole] = .boundary ∧
+    PointLocator.locatePolygon ⟨10, 10⟩ [shell, hole] = .exterior ∧ PointLocator.locatePolygon ⟨3, 3⟩ [shell, hole] = .interior ∧
+    PointLocator.locatePolygon ⟨0, 7⟩ [shell, hole] = .boundary ∧
+    PointLocator.locateInPolygonRingSwapped ⟨10, 6⟩ hole = .interior := by decide
+-- two lines sharing an end point: Mod-2 makes the shared end INTERIOR, the free ends BOUNDARY
+example :
+    let g : PointLocator.Geo := .coll [.line [⟨0, 0⟩, ⟨4, 0⟩], .coll [.line [⟨4, 0⟩, ⟨4, 4⟩], .point none]]
+    PointLocator.locate ⟨4, 0⟩ g = .interior ∧ PointLocator.locate ⟨0, 0⟩ g = .boundary ∧
+    PointLocator.locate ⟨2, 0⟩ g = .interior ∧ PointLocator.locate ⟨2, 1⟩ g = .exterior := by decide
 
 /-! ## 3. segment / segment -/
 
